@@ -18,9 +18,18 @@ read again and judged against
 for kinds Trimesh (cached values read beforehand or not), PointCloud, Path2D (3x3), Path3D,
 primitives Box / Cylinder / Capsule / Sphere / Extrusion, Scene (dump()) and VoxelGrid.
 
+The scene holds nested and instanced meshes, a group node without geometry and an instance 1e3 away
+from the origin, Path2D and PointCloud instances and node metadata; it is read through the graph
+(explicit placement), through dump() per instance and through to_edgelist() (what is attached to
+the nodes).  Every kind also goes through a HISTORY of small steps on one object (each call judged
+against the snapshot taken right before it; keys carry step=second|later).
+
 Tolerances: a matrix within 1e-8 of the identity may be skipped (documented shortcut): points are
 then judged with 2e-8 (1 + |p|_1).  Outside that band the product must be right to rounding:
-1e-11 (1 + |p|_1)(1 + |M|_max).  Primitives may refuse a matrix that is not a similarity
+1e-11 (1 + |p|_1)(1 + |M|_max) - for a scene too (its graph's 1e-5 "repair" of nearly rigid matrices
+gets no allowance in the single-call law; a failure that matches it is keyed sym=near_rigid_part_dropped).
+A primitive whose transformed tessellation would have vertices closer than 10 tol.merge is not judged
+(its mesh is re-generated through the merging constructor; documented absolute tolerance).  Primitives may refuse a matrix that is not a similarity
 (ValueError; counted); refusing a similarity is a violation.  The verdict never depends on the
 random triangles inside flips_winding.
 """
@@ -45,8 +54,12 @@ RULE = (
     "(nested nodes, instanced geometry), voxel grid} x matrix classes of gen.matrix (identity, both sides of "
     "the 1e-8 shortcut in translation / scale / rotation entries, rigid, similarity 1e-3..1e3, mirrors, "
     "anisotropic, shear, affine) plus mirrored similarities; per cell the point / kept-data / inverse laws, "
-    "composition on sampled pairs, apply_scale / apply_translation.  A case is one (kind, variant, matrix) "
-    "application; distinct = distinct (kind, variant, matrix bytes, operation); trivial = identity matrix."
+    "composition on sampled pairs, apply_scale / apply_translation; similarities about a pivot (scale and "
+    "translation in one matrix), a uniform scale 1+4e-6, a mirror at 1e-6 on a model of extent 300; per kind a "
+    "history of 5 small steps (0.004 / 1e-4 translations, 1e-4 rotation) on one object, scene with nodes 1e3 "
+    "from the origin, a group node, Path2D / PointCloud instances, node metadata.  A case is one (kind, variant, "
+    "matrix) application; distinct = distinct (kind, variant, matrix bytes, operation, earlier steps); trivial = "
+    "identity matrix."
 )
 ANCHORS = [
     "trimesh/base.py:Trimesh.apply_transform",
@@ -110,6 +123,8 @@ def group(tag, M):
         return "aniso"
     if base in ("similarity", "mirror_similarity"):
         return base + ("_small" if s < 1e-2 else ("_large" if s > 1e2 else ""))
+    if base == "nudge":
+        return "nudge_" + tag.split(":")[1]
     return base
 
 
@@ -140,7 +155,51 @@ def all_matrices(rng, dim):
         M = M @ Mx
         M[:dim, :dim] *= s
         out.append(("mirror_similarity:%g" % s, M))
+    # a similarity ABOUT A POINT: one matrix that carries a uniform scale != 1 and a translation
+    # that is not the image of the origin under a separate step (scale_matrix(s, origin=pivot),
+    # optionally followed by a rotation about an axis through the same pivot)
+    pivot = np.array([2.0, -3.0, 1.0])[:dim]
+    for k, sc in enumerate((2.5, 0.4)):
+        M = np.eye(dim + 1)
+        M[:dim, :dim] *= sc
+        M[:dim, dim] = (1.0 - sc) * pivot
+        if k:
+            R = rig[0].copy()
+            R[:dim, dim] = pivot - R[:dim, :dim] @ pivot  # rotation keeping the pivot fixed
+            M = R @ M
+        out.append(("similarity:pivot:%g" % sc, M))
+    # a uniform scale a few parts per million away from one: far outside the 1e-8 / 1e-6 identity
+    # shortcuts, inside the 1e-5 band in which a scene graph "repairs" nearly rigid matrices
+    M = np.eye(dim + 1)
+    M[:dim, :dim] *= 1.0 + 4e-6
+    out.append(("near_unit_scale:4e-06", M))
     return out
+
+
+def nudges(dim):
+    """
+    small steps for a HISTORY of calls on one object: each is tiny compared with the offset of a
+    node / vertex far from the origin (1e3), yet 1e5 times the identity shortcut
+    """
+    out = []
+    for ax, d in ((0, 0.004), (1, -1e-4), (dim - 1, 0.004)):
+        M = np.eye(dim + 1)
+        M[ax, dim] = d
+        out.append(("nudge:translation", M))
+    a = 1e-4
+    M = np.eye(dim + 1)
+    M[:2, :2] = [[math.cos(a), -math.sin(a)], [math.sin(a), math.cos(a)]]
+    out.append(("nudge:rotation", M))
+    M = np.eye(dim + 1)
+    M[0, dim] = 0.004
+    out.append(("nudge:translation", M))
+    return out
+
+
+def well_conditioned(M):
+    """invertible with room to spare, whatever the unit (|det| may be 1e-18 for a change of units by 1e-6)"""
+    L = linear(M)
+    return bool(np.isfinite(L).all() and np.linalg.cond(L) < 1e6)
 
 
 def apply_ref(M, P):
@@ -267,6 +326,10 @@ def _mesh_source(rng, which):
         V, F = gm.l_prism()
     elif which == 4:
         V, F = gm.tetra(rng, -4, 4)
+    elif which == 6:
+        # a model drawn in small units (extent ~300): after a change of units by 1e-6 its triangles are
+        # still far above the library's absolute degeneracy thresholds, so every law can be judged there
+        V, F = gm.hull_int(rng, 12, -400, 400)
     else:
         a = gm.box_int((6, 6, 6), (-3, -3, -3))
         b = gm.invert(*gm.box_int((2, 2, 2), (-1, -1, -1)))
@@ -383,7 +446,7 @@ class MeshKind(Kind):
                               dict(case, got=got, expected=want, tol=np.asarray(tol)))
 
         api("volume_scales_by_|det|", lambda: m.volume, want_v, tol_v)
-        if abs(v0) > 1e-9 and abs(want_v) > 1e-12:
+        if abs(v0) > 1e-9 and abs(v1) > 1e-6 * ex1.mag_volume:  # a solid, at whatever unit
             c0 = ex0.f(ex0.center_mass())
             c1 = apply_ref(M, c0[None])[0]
             tol_c = ex1.tol_center_mass() + (1e-7 if band else 1e-10) * (1 + np.abs(c1).sum())
@@ -402,7 +465,7 @@ class MeshKind(Kind):
         if sim == "yes":
             want_a = s * s * ex0.area
             api("area_scales_by_s^2", lambda: m.area, want_a, ex1.tol_area() + rel * 10 * want_a)
-        if s0.extra.get("is_volume") is not None and abs(det) > 1e-12:
+        if s0.extra.get("is_volume") is not None and well_conditioned(M):
             try:
                 now = bool(m.is_volume)
                 if now != s0.extra["is_volume"]:
@@ -545,7 +608,10 @@ class PathKind(Kind):
             # curves may start anywhere / run either way / come in any order: compare the sets of
             # points (closing duplicates dropped) of all curves together
             # the discretised curves of an untouched copy, moved by M (order of curves not asserted)
-            before = [np.asarray(d, dtype=np.float64) for d in self.build(None).discrete]
+            twin = self.build(None)
+            for P in getattr(self, "_prefix", ()):  # earlier steps of a history (each judged when it ran)
+                twin.apply_transform(P)
+            before = [np.asarray(d, dtype=np.float64) for d in twin.discrete]
             if sorted(len(d) for d in disc) != sorted(len(d) for d in before):
                 run.violation(key("law=discrete sym=count"), "number / size of discrete curves changed", case)
             elif len(disc):
@@ -557,7 +623,7 @@ class PathKind(Kind):
                     run.violation(key("law=discrete"), "discrete curves after the transform are not M applied to the curves before", case)
         except Exception as e:
             run.violation(key("law=discrete sym=exception:%s" % type(e).__name__), "discrete raised %r" % (e,), case)
-        if self.dim == 2 and abs(det) > 1e-12:
+        if self.dim == 2 and well_conditioned(M):
             def shoelace(P):
                 x, y = P[:, 0], P[:, 1]
                 return 0.5 * abs(float(np.dot(x, np.roll(y, -1)) - np.dot(y, np.roll(x, -1))))
@@ -653,11 +719,46 @@ class PrimitiveKind(Kind):
                 run.violation(key("law=sphere_vertices_on_sphere"), "Sphere vertices do not lie on the transformed sphere", case)
 
 
+def _pad3(P):
+    P = np.asarray(P, dtype=np.float64)
+    if P.ndim == 2 and P.shape[1] == 2:
+        P = np.column_stack([P, np.zeros(len(P))])
+    return P
+
+
+def polar_rigid(E):
+    """the matrix with the linear part of E replaced by its orthogonal polar factor (own SVD)"""
+    U, _, Vt = np.linalg.svd(E[:3, :3])
+    out = np.eye(4)
+    out[:3, :3] = U @ Vt
+    out[:3, 3] = E[:3, 3]
+    return out
+
+
+def set_distance(A, B):
+    """largest distance from a point of one set to the nearest point of the other (both ways)"""
+    if len(A) == 0 or len(B) == 0:
+        return 0.0 if len(A) == len(B) else float("inf")
+    d = np.abs(A[:, None, :] - B[None, :, :]).max(axis=2)
+    return float(max(d.min(axis=1).max(), d.min(axis=0).max()))
+
+
 class SceneKind(Kind):
+    """
+    nodes:  a0 (mesh A, node metadata)  -> b0 (mesh B)           nested
+            a1 (A again, scaled 0.5)                               instanced, set through graph.update
+            far (group node WITHOUT geometry, offset ~1e3) -> f0 (B, node metadata)
+            a2 (A again, offset 3e3 directly under the base frame)
+            p0 (Path2D of line segments, identity), p1 (the same Path2D, turned in its plane)
+            c0 (PointCloud)
+    """
+
     name = "scene"
+    ROWWISE = ("Trimesh", "PointCloud")
 
     def build(self, rng):
         import trimesh
+        from trimesh.path.entities import Line
 
         if not hasattr(self, "_parts"):
             rng = self.local_rng()
@@ -668,51 +769,127 @@ class SceneKind(Kind):
             T2 = np.array([[c, -s_, 0, 0.5], [s_, c, 0, 1.0], [0, 0, 1, 2.0], [0, 0, 0, 1.0]])
             T3 = np.diag([0.5, 0.5, 0.5, 1.0])
             T3[:3, 3] = [-1, -1, 3]
-            self._T = [T1, T2, T3]
+            Tfar = np.eye(4)
+            Tfar[:3, 3] = [1000.0, -2000.0, 500.0]
+            c, s_ = math.cos(-1.1), math.sin(-1.1)
+            Tf0 = np.array([[1, 0, 0, 0.25], [0, c, -s_, -0.5], [0, s_, c, 1.5], [0, 0, 0, 1.0]])
+            Ta2 = np.eye(4)
+            Ta2[:3, 3] = [0.0, 3000.0, -7.0]
+            c, s_ = math.cos(0.7), math.sin(0.7)
+            Tp1 = np.array([[c, -s_, 0, 0], [s_, c, 0, 0], [0, 0, 1, 0], [0, 0, 0, 1.0]])
+            Tc0 = np.eye(4)
+            Tc0[:3, 3] = [-3.0, 1.0, 0.5]
+            self._T = [T1, T2, T3, Tfar, Tf0, Ta2, Tp1, Tc0]
+            self._pv = np.array([[0.0, 0], [3, 0], [3, 2], [0, 2], [1, 0.5], [2, 1.5]]) + np.array([0.4, -0.3])
+            self._cloud = rng.uniform(-2, 2, size=(7, 3))
+        T = [t.copy() for t in self._T]
         sc = trimesh.Scene()
+        base = sc.graph.base_frame
         a = trimesh.Trimesh(self._parts[0][0].copy(), self._parts[0][1].copy(), process=False)
         b = trimesh.Trimesh(self._parts[1][0].copy(), self._parts[1][1].copy(), process=False)
-        sc.add_geometry(a, node_name="a0", geom_name="A", transform=self._T[0].copy())
-        sc.add_geometry(b, node_name="b0", geom_name="B", transform=self._T[1].copy(), parent_node_name="a0")
+        sc.add_geometry(a, node_name="a0", geom_name="A", transform=T[0], metadata={"tag": "a0", "n": 3})
+        sc.add_geometry(b, node_name="b0", geom_name="B", transform=T[1], parent_node_name="a0")
         # second instance of A directly under the base frame
-        sc.graph.update(frame_to="a1", frame_from=sc.graph.base_frame, matrix=self._T[2].copy(), geometry="A")
+        sc.graph.update(frame_to="a1", frame_from=base, matrix=T[2], geometry="A")
+        # a group node far from the origin, an instance below it, an instance far away at the base
+        sc.graph.update(frame_to="far", frame_from=base, matrix=T[3])
+        sc.graph.update(frame_to="f0", frame_from="far", matrix=T[4], geometry="B", metadata={"tag": "f0"})
+        sc.graph.update(frame_to="a2", frame_from=base, matrix=T[5], geometry="A")
+        # other geometry kinds as instances
+        p = trimesh.path.Path2D(entities=[Line([0, 1, 2, 3, 0]), Line([4, 5])], vertices=self._pv.copy(), process=False)
+        sc.add_geometry(p, node_name="p0", geom_name="P")
+        sc.graph.update(frame_to="p1", frame_from=base, matrix=T[6], geometry="P")
+        sc.add_geometry(trimesh.PointCloud(self._cloud.copy()), node_name="c0", geom_name="C", transform=T[7])
         sc.metadata["name"] = "scene"
         return sc
 
     def warm(self, sc):
         _ = sc.bounds, sc.centroid, sc.extents
 
-    def _dump(self, sc):
-        out = {}
+    def _placed(self, sc):
+        """explicit placement: every geometry node's world matrix (as the graph reports it) times the vertices"""
+        out, mats = {}, {}
         for node in sc.graph.nodes_geometry:
             T, gname = sc.graph[node]
             g = sc.geometry[gname]
-            out[node] = (gname, apply_ref(np.asarray(T, dtype=np.float64), np.asarray(g.vertices)))
-        return out
+            mats[node] = np.array(T, dtype=np.float64)
+            out[node] = (gname, apply_ref(mats[node], _pad3(g.vertices)))
+        return out, mats
 
     def snap(self, sc):
-        placed = self._dump(sc)  # explicit placement from the graph
+        placed, mats = self._placed(sc)
         names = sorted(placed)
         pts = np.vstack([placed[n][1] for n in names])
-        # and the library's own dump()
-        dumped = sc.dump()
-        dpts = np.vstack([np.asarray(d.vertices) for d in dumped]) if len(dumped) else np.zeros((0, 3))
-        geom = {k: (freeze(np.array(g.vertices)), freeze(np.array(g.faces))) for k, g in sc.geometry.items()}
-        st = (tuple(names), tuple(placed[n][0] for n in names), tuple(len(placed[n][1]) for n in names), len(dumped))
-        return Snap(pts, st, {"geometry_untouched": freeze(geom), "metadata": freeze(sc.metadata)},
-                    {"dump_points": dpts, "dump_faces": [np.array(d.faces) for d in dumped], "dump_vol": [float(exact_mass(np.asarray(d.vertices), np.asarray(d.faces)).volume) for d in dumped]})
+        # the library's own dump(): one baked copy per instance
+        dump = {}
+        for d in sc.dump():
+            dump[str(d.metadata.get("node"))] = (type(d).__name__, _pad3(d.vertices),
+                                                 np.array(d.faces) if hasattr(d, "faces") else None)
+        vol = {n: float(exact_mass(v, f).volume) for n, (t, v, f) in dump.items() if t == "Trimesh"}
+
+        def fz(g):
+            parts = [freeze(np.array(g.vertices))]
+            if hasattr(g, "faces"):
+                parts.append(freeze(np.array(g.faces)))
+            if hasattr(g, "entities"):
+                parts.append(tuple((type(e).__name__, tuple(int(i) for i in e.points)) for e in g.entities))
+            return tuple(parts)
+
+        geom = {k: fz(g) for k, g in sc.geometry.items()}
+        # what is attached to the nodes, read through the public edge list (geometry reference, metadata)
+        node_att = tuple(sorted((str(u), str(v), str(d.get("geometry")), freeze(d.get("metadata"))) for u, v, d in sc.graph.to_edgelist()))
+        st = (tuple(names), tuple(placed[n][0] for n in names), tuple(len(placed[n][1]) for n in names), tuple(sorted(dump)))
+        rows = np.cumsum([0] + [len(placed[n][1]) for n in names])
+        return Snap(pts, st, {"geometry_untouched": geom, "metadata": freeze(sc.metadata),
+                              "node_geometry_reference": tuple(x[:3] for x in node_att),
+                              "node_metadata": tuple((x[0], x[1], x[3]) for x in node_att)},
+                    {"dump": dump, "dump_vol": vol, "node_T": mats, "names": names, "rows": rows,
+                     "verts": {n: _pad3(sc.geometry[placed[n][0]].vertices) for n in names}})
+
+    def classify_point_failure(self, M, s0, s1, tol):
+        """
+        a structural symptom for a failed point law: are the points where they would be if every node
+        matrix M.T that is nearly rigid (1e-13 < max|L L^T - I| < 1e-5) had been replaced by its
+        orthogonal polar factor?  (own SVD; second-order slack because the library repairs products)
+        """
+        alt, hit = [], False
+        for n in s0.extra["names"]:
+            E = np.asarray(M.astype(np.longdouble) @ s0.extra["node_T"][n].astype(np.longdouble), dtype=np.float64)
+            dev = rigid_defect(E)
+            if 1e-13 < dev < 2 * REPAIR_RIGID:
+                E, hit = polar_rigid(E), True
+            alt.append(apply_ref(E, s0.extra["verts"][n]))
+        if not hit:
+            return None
+        alt = np.vstack(alt)
+        dmax = max(rigid_defect(M), 1e-8)
+        if alt.shape == s1.points.shape and point_ratio(s1.points, alt, tol + 8 * dmax * dmax * (1 + np.abs(alt).sum(axis=1))) <= 1:
+            return "near_rigid_part_dropped"
+        return None
 
     def extra_laws(self, run, sc, s0, s1, M, key, case, loose=False):
         det, sim, s, band = props(M)
-        d0, d1 = s0.extra["dump_points"], s1.extra["dump_points"]
-        want = apply_ref(M, d0)
-        # dump() applies each node matrix through Trimesh.apply_transform: judge like points
-        tol = (point_tol(M, want) if not band else 4e-8 * (1 + np.abs(want).sum(axis=1))) + scene_slack(M, want)
-        r = point_ratio(d1, want, tol)
-        if r > 1:
-            run.violation(key("law=dump_points_p->M.p"), "Scene.dump() after the transform is not M applied to the dump before", dict(case, ratio=r))
-        for v0, v1 in zip(s0.extra["dump_vol"], s1.extra["dump_vol"]):
-            if abs(v1 - abs(det) * v0) > (1e-6 + 30 * (rigid_defect(M) if rigid_defect(M) < 10 * REPAIR_RIGID else 0)) * max(1.0, abs(det) * abs(v0)):
+        d0, d1 = s0.extra["dump"], s1.extra["dump"]
+        # dump() applies each node matrix through apply_transform of a copy: judge like points
+        for n in sorted(d0):
+            t0, v0, _ = d0[n]
+            if n not in d1:
+                continue  # structure law
+            t1, v1, _ = d1[n]
+            want = apply_ref(M, v0)
+            tol = point_tol(M, want) if not band else 4e-8 * (1 + np.abs(want).sum(axis=1))
+            if t0 in self.ROWWISE:
+                r = point_ratio(v1, want, tol)
+            else:  # Path2D.to_3D re-orders vertices: compare as point sets
+                r = set_distance(v1, want) / float(np.max(tol)) if len(v1) == len(want) else float("inf")
+            if r > 1:
+                inst = {"Trimesh": "mesh", "PointCloud": "cloud"}.get(t0, t0.lower())
+                run.violation(key("law=dump_points_p->M.p inst=%s dumped_as=%s" % (inst, t1)),
+                              "Scene.dump() after the transform is not M applied to the dump before (instance %s)" % n, dict(case, ratio=r, node=n))
+                return
+        for n, v0 in s0.extra["dump_vol"].items():
+            v1 = s1.extra["dump_vol"].get(n)
+            if v1 is not None and abs(v1 - abs(det) * v0) > 1e-6 * max(1.0, abs(det) * abs(v0)):
                 run.violation(key("law=dump_volume_scales_by_|det|"), "a dumped instance does not enclose |det M| x its volume (winding)", dict(case, got=v1, expected=abs(det) * v0))
                 break
         try:
@@ -767,10 +944,10 @@ class VoxelKind(Kind):
 # the generic laws
 
 
-def make_key(kind, grp, cached):
-    nc = ""
+def make_key(kind, grp, cached, suffix=""):
+    nc = suffix
     if cached is not None:
-        nc = " normals_cached=%s" % ("yes" if cached else "no")
+        nc += " normals_cached=%s" % ("yes" if cached else "no")
 
     def key(law):
         return "kind=%s %s class=%s%s" % (kind, law, grp, nc)
@@ -786,25 +963,55 @@ def do_apply(obj, op, arg):
     return obj.apply_translation(arg)
 
 
-def check_cell(run, kind, tag, M, rng, table, op="apply_transform", op_arg=None):
-    """one (kind, matrix) application with all single-matrix laws; returns True when applied"""
+MERGE = 1e-8  # trimesh.constants.tol.merge, documented: distance below which two vertices are one
+
+
+def min_spacing(P):
+    """smallest distance between two distinct points of P"""
+    from scipy.spatial import cKDTree
+
+    if len(P) < 2:
+        return float("inf")
+    d, _ = cKDTree(P).query(P, k=2)
+    return float(d[:, 1].min())
+
+
+def check_cell(run, kind, tag, M, rng, table, op="apply_transform", op_arg=None, obj=None, prefix=(), do_inverse=True):
+    """
+    one (kind, matrix) application with all single-matrix laws; returns the object when applied.
+    obj / prefix: the call is one step of a HISTORY on an object that has already been through the
+    calls listed in prefix (each of them judged the same way); the snapshot is taken right before.
+    """
     M = np.asarray(M, dtype=np.float64)
     det, sim, s, band = props(M)
     grp = group(tag, M) if op == "apply_transform" else tag
     cached = getattr(kind, "cached", None)
-    key = make_key(kind.name + (":com_override" if getattr(kind, "override", False) else ""), grp, cached)
+    step = "" if not prefix else " step=%s" % ("second" if len(prefix) == 1 else "later")
+    key = make_key(kind.name + (":com_override" if getattr(kind, "override", False) else ""), grp, cached, step)
     variant = getattr(kind, "variant", getattr(kind, "source", ""))
     case = {"kind": kind.name, "variant": variant, "source": getattr(kind, "source", None), "cached": cached,
             "override": getattr(kind, "override", False), "class": tag, "matrix": M.tolist(), "op": op,
-            "op_arg": None if op_arg is None else np.asarray(op_arg).tolist(), "dim": kind.dim, "salt": int(kind.salt)}
+            "op_arg": None if op_arg is None else np.asarray(op_arg).tolist(), "dim": kind.dim, "salt": int(kind.salt),
+            "prefix": [np.asarray(P).tolist() for P in prefix]}
     cell = "%s|%s|%s" % (grp, kind.name, "-" if cached is None else ("cached" if cached else "fresh"))
     table[cell] = table.get(cell, 0) + 1
     run.state("table_class_x_kind_x_cached", cell)
-    run.case("%s:%s" % (op, kind.name), kind.name, variant, cached, getattr(kind, "override", False), M, op,
-             nontrivial=grp != "identity")
-    obj = kind.build(rng)
+    run.case("%s:%s%s" % (op, kind.name, ":history" if prefix else ""), kind.name, variant, cached, getattr(kind, "override", False), M, op,
+             *[np.asarray(P) for P in prefix], nontrivial=grp != "identity")
+    if obj is None:
+        obj = kind.build(rng)
+        for P in prefix:  # replay of a recorded step of a history
+            obj.apply_transform(np.asarray(P, dtype=np.float64))
     kind.warm(obj)
     s0 = kind.snap(obj)
+    if isinstance(kind, PrimitiveKind) and kind.which != "Sphere" and len(s0.points) > 1:
+        # a primitive re-generates its tessellation through the processing constructor, which merges
+        # vertices closer than the documented absolute tol.merge: keep the documented 10x gap
+        gap = min_spacing(apply_ref(M, s0.points))
+        if gap < 10 * MERGE:
+            run.skip("primitive whose transformed tessellation has vertices closer than 10 tol.merge")
+            run.state("regime_skipped", (kind.name, grp))
+            return None
     if isinstance(kind, MeshKind):
         s0.extra["ex"] = exact_mass(s0.points, s0.structure)
         try:
@@ -815,24 +1022,29 @@ def check_cell(run, kind, tag, M, rng, table, op="apply_transform", op_arg=None)
             # evaluate on a separate copy so the object under test stays "fresh"
             s0.extra["is_volume"] = bool(kind.build(rng).is_volume)
         if kind.override:
-            s0.extra["com_override"] = np.array(kind._com, dtype=np.float64)
+            com = np.array(kind._com, dtype=np.float64)
+            for P in prefix:  # own bookkeeping of where the override has been moved to
+                com = apply_ref(np.asarray(P, dtype=np.float64), com[None])[0]
+            s0.extra["com_override"] = com
+    kind._prefix = [np.asarray(P, dtype=np.float64) for P in prefix]
     try:
         do_apply(obj, op, M if op == "apply_transform" else op_arg)
     except ValueError as e:
         if kind.may_refuse_nonsimilarity and sim != "yes":
             run.count("refusals_accepted:%s" % kind.name)
             run.state("refusal", (kind.name, grp))
-            return False
+            return None
         if kind.may_refuse_nonsimilarity:
             # the refusal does not depend on the size of the scale: one key per matrix class
-            k0 = make_key(kind.name, grp.replace("_small", "").replace("_large", ""), cached)
+            g0 = "similarity" if grp == "near_unit_scale" else grp.replace("_small", "").replace("_large", "")
+            k0 = make_key(kind.name, g0, cached)
             run.violation(k0("law=refused_similarity"), "primitive refused a similarity transform: %s" % e, dict(case, exception=repr(e)))
-            return False
+            return None
         run.violation(key("law=applies sym=exception:ValueError"), "%s raised %r" % (op, e), dict(case, exception=repr(e)))
-        return False
+        return None
     except Exception as e:
         run.violation(key("law=applies sym=exception:%s" % type(e).__name__), "%s raised %r" % (op, e), dict(case, exception=repr(e)))
-        return False
+        return None
     if kind.may_refuse_nonsimilarity:
         run.state("accepted", (kind.name, grp))
     s1 = kind.snap(obj)
@@ -842,29 +1054,34 @@ def check_cell(run, kind, tag, M, rng, table, op="apply_transform", op_arg=None)
         pass  # tessellation is not rotated by design: judged by centre / radius in extra_laws
     elif s1.points.shape != s0.points.shape:
         run.violation(key("law=point_count_kept"), "number of points changed", dict(case, before=s0.points.shape, after=s1.points.shape))
-        return True  # every other law would only restate this
+        return obj  # every other law would only restate this
     else:
+        # (a scene is judged like every other kind: the graph's documented repair of nearly rigid
+        # matrices gets no allowance here, see classify_point_failure)
         ptol = point_tol(M, want)
-        if isinstance(kind, SceneKind):
-            ptol = ptol + scene_slack(M, want)
         r = point_ratio(s1.points, want, ptol)
         changed = s1.points.tobytes() != s0.points.tobytes()
         if "near_identity" in grp or grp == "identity":
             run.state("identity_shortcut_observed", (kind.name, grp, "applied" if changed else "skipped"))
         if r > 1:
             sym = "unchanged" if not changed else "wrong_position"
+            if hasattr(kind, "classify_point_failure"):
+                sym = kind.classify_point_failure(M, s0, s1, ptol) or sym
             run.violation(key("law=points_p->M.p sym=%s" % sym), "points after %s are not M.p of the points before" % op,
                           dict(case, ratio=r))
-            return True  # volume, centre of mass ... would only restate this
+            return obj  # volume, centre of mass ... would only restate this
     # ---- connectivity / attached data
     if not kind.structure_law(run, s0, s1, M, key, case):
-        return True
-    if s0.attached != s1.attached:
-        diff = [k for k in s0.attached if s0.attached[k] != s1.attached.get(k)]
-        run.violation(key("law=attached_data_kept what=%s" % "+".join(sorted(diff))), "attached data changed by the transform: %s" % diff, case)
+        return obj
+    attached_ok = s0.attached == s1.attached
+    if not attached_ok:
+        diff = sorted(k for k in s0.attached if s0.attached[k] != s1.attached.get(k))
+        # what is attached does not depend on the matrix: one key per kind of data, not per matrix class
+        ka = make_key(kind.name + (":com_override" if getattr(kind, "override", False) else ""), "any", cached)
+        run.violation(ka("law=attached_data_kept what=%s" % "+".join(diff)), "attached data changed by the transform: %s" % diff, case)
     kind.extra_laws(run, obj, s0, s1, M, key, case)
     # ---- inverse restores
-    if abs(det) > 1e-12 and op == "apply_transform":
+    if well_conditioned(M) and op == "apply_transform" and do_inverse:
         Mi = np.linalg.inv(M)
         # one Newton step in extended precision: X <- X (2 I - M X)
         Ml, Xl = M.astype(np.longdouble), Mi.astype(np.longdouble)
@@ -874,7 +1091,7 @@ def check_cell(run, kind, tag, M, rng, table, op="apply_transform", op_arg=None)
         except Exception as e:
             if not (kind.may_refuse_nonsimilarity and sim != "yes"):
                 run.violation(key("law=inverse_restores sym=exception:%s" % type(e).__name__), "applying M^-1 raised %r" % (e,), dict(case, exception=repr(e)))
-            return True
+            return obj
         s2 = kind.snap(obj)
         if not (isinstance(kind, PrimitiveKind) and kind.which == "Sphere"):
             cond = float(np.linalg.cond(linear(M)))
@@ -891,9 +1108,9 @@ def check_cell(run, kind, tag, M, rng, table, op="apply_transform", op_arg=None)
                 run.violation(key("law=inverse_restores what=winding"), "M then M^-1 does not restore the face winding", case)
         elif s2.structure != s0.structure:
             run.violation(key("law=inverse_restores what=connectivity"), "M then M^-1 does not restore the structure", case)
-        if s2.attached != s0.attached:
+        if s2.attached != (s0.attached if attached_ok else s1.attached):  # a loss at the first call is reported there
             run.violation(key("law=inverse_restores what=attached_data"), "M then M^-1 changed attached data", case)
-    return True
+    return obj
 
 
 def check_compose(run, kind, tagA, A, tagB, B, rng):
@@ -990,6 +1207,8 @@ def _kinds_list(quick):
     for i, src in enumerate(sources):
         for cached in (True, False):
             ks.append(MeshKind(variants[i % 4], cached, src))
+    ks.append(MeshKind("face_colors", True, 6))
+    ks.append(MeshKind("plain", False, 6))
     ks.append(MeshKind("plain", True, 1, override=True))
     ks.append(MeshKind("vertex_colors", False, 0, override=True))
     ks.append(CloudKind())
@@ -1022,6 +1241,14 @@ def workload(run):
                     continue
                 check_cell(run, kind, tag, M, rng, table)
             if run.out_of_time(0.6):
+                break
+        # ---- histories: several calls on ONE object, every call judged against the snapshot before it
+        for kind in kinds:
+            idx += 1
+            if not run.mine(idx):
+                continue
+            run_history(run, kind, rng, table)
+            if run.out_of_time(0.7):
                 break
         # ---- composition / helpers
         for kind in kinds:
@@ -1082,6 +1309,17 @@ def workload(run):
     run.note("mesh_flips_expected_vs_observed", [fe, fo])
 
 
+def run_history(run, kind, rng, table):
+    obj, prefix = None, []
+    steps = nudges(kind.dim)
+    for i, (tag, M) in enumerate(steps):
+        obj = check_cell(run, kind, tag, M, rng, table, obj=obj, prefix=tuple(prefix), do_inverse=(i == len(steps) - 1))
+        if obj is None:
+            return
+        prefix.append(M)
+    run.count("histories_completed")
+
+
 def replay(run, case):
     rng = np.random.default_rng(0)
     k = case.get("kind", "mesh")
@@ -1103,4 +1341,5 @@ def replay(run, case):
         check_compose(run, kind, case["classA"], np.array(case["A"]), case["classB"], np.array(case["B"]), rng)
     else:
         check_cell(run, kind, case["class"], np.array(case["matrix"]), rng, table, op=case.get("op", "apply_transform"),
-                   op_arg=None if case.get("op_arg") is None else np.array(case["op_arg"]))
+                   op_arg=None if case.get("op_arg") is None else np.array(case["op_arg"]),
+                   prefix=tuple(np.array(P) for P in case.get("prefix") or ()))
